@@ -4,7 +4,7 @@ CHECK = dict(
     property='C07', level='exploration',
     families=[('subs', 1.0)],
     budget=dict(quick=55, thorough=900), max_runs=dict(quick=200_000, thorough=5_000_000),
-    rule='clients negotiate protocol 1.4 / 1.4.1 / 1.4.2 or none; what a client holds is what arrived last; motifs: a client that connects and subscribes while the header read of a notification round is slow; quiescence requires the block processor\'s report at the current height; each evaluation = one simulated run of the real server with 1-3 model Electrum clients over the simulated TCP (real aiorpcX framing / JSON-RPC / sessions) subscribing / unsubscribing pool scripts and headers, disconnecting, broadcasting, querying, while the model daemon produces blocks, forks, forced reorgs, mempool arrivals / evictions / confirmations under daemon latencies up to several seconds (refresh slower than one poll), daemon faults, thread stalls and cache-pressure flushes at intermediate heights. Monitor: a header notification / reply is never written to a transport before the DB is at that height with that header on disk. Oracle at each quiescence point (daemon frozen, index caught up, a synchronised mempool refresh seen after the last daemon change, two more refresh periods drained): for every still-connected client the last status held for every subscribed script is in RefStatus (confirmed part ordered, any permutation of the mempool part) and the last header held is the tip; the recorded Notifications calls are fed to RefNotifications (organic C20). non-trivial = statuses checked at >= 2 quiescence points; distinct = distinct interleaving signature incl. the Notifications call sequence',
+    rule='a slow header read of a mempool-driven notification round overtaken by a same-height reorganisation; clients negotiate protocol 1.4 / 1.4.1 / 1.4.2 or none; what a client holds is what arrived last; motifs: a client that connects and subscribes while the header read of a notification round is slow; quiescence requires the block processor\'s report at the current height; each evaluation = one simulated run of the real server with 1-3 model Electrum clients over the simulated TCP (real aiorpcX framing / JSON-RPC / sessions) subscribing / unsubscribing pool scripts and headers, disconnecting, broadcasting, querying, while the model daemon produces blocks, forks, forced reorgs, mempool arrivals / evictions / confirmations under daemon latencies up to several seconds (refresh slower than one poll), daemon faults, thread stalls and cache-pressure flushes at intermediate heights. Monitor: a header notification / reply is never written to a transport before the DB is at that height with that header on disk. Oracle at each quiescence point (daemon frozen, index caught up, a synchronised mempool refresh seen after the last daemon change, two more refresh periods drained): for every still-connected client the last status held for every subscribed script is in RefStatus (confirmed part ordered, any permutation of the mempool part) and the last header held is the tip; the recorded Notifications calls are fed to RefNotifications (organic C20). non-trivial = statuses checked at >= 2 quiescence points; distinct = distinct interleaving signature incl. the Notifications call sequence',
     assumptions=['model bitcoind / Electrum clients / TCP / LevelDB / file system are simulator models; '
                  'everything of ElectrumX and aiorpcX runs real', 'session cost throttling disabled '
                  '(COST_*_LIMIT=0) so that oracle sweeps are not throttled',
